@@ -53,6 +53,20 @@ void harness_rule(void)
 	  cJSON_AddItemToObject(rule, "containsAllOf", arr); expect_match = (c == 'a' || c == 'b'); }
 #elif RULE == 8
 	cJSON_AddItemToObject(rule, "equalsNot", str2(c, 'b')); cJSON_AddItemToObject(rule, "contains", str2('a', 'b')); expect_match = (c != 'a');
+#elif RULE == 10
+	{ cJSON *arr = cJSON_CreateArray(); cJSON *s1 = cJSON_CreateString("?"); s1->valuestring[0] = c; cJSON_AddItemToArray(arr, s1); cJSON_AddItemToArray(arr, cJSON_CreateString("Z"));
+	  cJSON_AddItemToObject(rule, "containsAllOf", arr); cJSON_AddItemToObject(rule, "caseInsensitive", cJSON_CreateTrue()); expect_match = 0; }   /* "z" is not contained */
+#elif RULE == 11
+	{ cJSON *arr = cJSON_CreateArray(); cJSON *s1 = cJSON_CreateString("?"); s1->valuestring[0] = c; cJSON_AddItemToArray(arr, s1); cJSON_AddItemToArray(arr, cJSON_CreateString("B"));
+	  cJSON_AddItemToObject(rule, "containsAllOf", arr); cJSON_AddItemToObject(rule, "caseInsensitive", cJSON_CreateTrue()); expect_match = (lower((unsigned char)c) == 'a' || lower((unsigned char)c) == 'b'); }
+#elif RULE == 12
+	cJSON_AddItemToObject(rule, "equalsNot", str2(c, 'B')); cJSON_AddItemToObject(rule, "caseInsensitive", cJSON_CreateTrue()); expect_match = (lower((unsigned char)c) != 'a');
+#elif RULE == 13
+	cJSON_AddItemToObject(rule, "contains", str2(c, 'B')); cJSON_AddItemToObject(rule, "caseInsensitive", cJSON_CreateTrue()); expect_match = (lower((unsigned char)c) == 'a');
+#elif RULE == 14
+	cJSON_AddItemToObject(rule, "startsWith", str2(c, 'B')); cJSON_AddItemToObject(rule, "caseInsensitive", cJSON_CreateTrue()); expect_match = (lower((unsigned char)c) == 'a');
+#elif RULE == 15
+	cJSON_AddItemToObject(rule, "endsWith", str2(c, 'B')); cJSON_AddItemToObject(rule, "caseInsensitive", cJSON_CreateTrue()); expect_match = (lower((unsigned char)c) == 'a');
 #elif RULE == 9
 	/* only option keys, twice: refused or fetch-all; never a crash */
 	cJSON_AddItemToObject(rule, "caseInsensitive", cJSON_CreateTrue()); cJSON_AddItemToObject(rule, "caseInsensitive", cJSON_CreateTrue()); expect_match = 1;
